@@ -1,4 +1,5 @@
 import ESV.Comp.CgTop
+import ESV.Comp.CgSrcM
 /-
 `codegen_correct` for the fragment `CgProg`: every routine of the source program (language semantics) and of the labelled
 code the front end collects behave the same.  User labels: one induction over all labels of the program at once.
@@ -94,17 +95,19 @@ theorem codegen_correct_cg (lv : Nat) (p : Program) (t : Tables) (hp : CgProg lv
     have := ainv.node n i h
     show 0 < i ∧ i < AL.2.length + 1
     rw [hb1] at this; omega⟩
+  have hM0 : MacOK cx fuel := macOK_nil cx fuel rfl
   -- the front end's tables
   have hruns : ∀ (j' : Nat) (r' : Routine), p.routines[j']? = some r' → ∃ its lb s1 ops s2, t2.ops[j']? = some its ∧ s1.loops = [] ∧
       s1.cases = [] ∧ cStmts [] lb r'.body s1 = .ok (ops, s2) ∧ NamedLe s2 sF ∧
       (its = ops ∨ ∃ o, its = ops ++ [.op ⟨o, Gen.op_dummy_end, []⟩]) := by
     intro j' r' hj'
-    have := (compileRoutines_cg cx fuel lv p.routines 0 _ _ _ _ hseq rfl rfl hall hml rfl rfl (wrapAssert_ok hr)).2.2 j' r' hj'
+    have := (compileRoutines_cg [] p.routines 0 _ _ _ _ hseq rfl rfl (fun r hr lb s ops s2 h =>
+      (cStmts_c cx fuel lv hM0 r.body lb (hall r hr) (hml r hr) _ henv s ops s2 h).stk) rfl rfl (wrapAssert_ok hr)).2.2 j' r' hj'
     simpa using this
   -- every body's source translation only grows the table
   have hgrow : ∀ body ∈ p.routines.map (·.body), ∀ k b,
       Grow cx.Z b (Src.trStmts fuel [] { labels := AL.2 } (toSrcStmts body) k b).1 :=
-    fun body _ k b => (trStmts_good cx fuel (toSrcStmts body) _ henv k b).1
+    fun body _ k b => (trStmts_good' cx.Z fuel [] (toSrcStmts body) _ henv.dense k b).1
   obtain ⟨g1, _, paths⟩ := graph_fold fuel [] { labels := AL.2 } 0 cx.Z (p.routines.map (·.body)) hgrow (AL.1, [])
   have hN : cx.N = tbl (((p.routines.map (·.body)).map fun b => (⟨some (toSrcStmts b)⟩ : Src.Routine)).foldl
       (graphStep fuel [] { labels := AL.2 } 0) (AL.1, [])).1 := by
@@ -128,7 +131,7 @@ theorem codegen_correct_cg (lv : Nat) (p : Program) (t : Tables) (hp : CgProg lv
     intro j' r' hj' bj hfin hst m jj hC
     obtain ⟨its, lb, s1, ops, s2, hits, hl1, hc1, hrun, hn2, hshape⟩ := hruns j' r' hj'
     have hmem : r' ∈ p.routines := List.mem_of_getElem? hj'
-    have piece := cStmts_c cx fuel lv r'.body lb (hall r' hmem) (hml r' hmem) _ henv _ _ _ hrun
+    have piece := cStmts_c cx fuel lv hM0 r'.body lb (hall r' hmem) (hml r' hmem) _ henv _ _ _ hrun
     have hag : AgreeOn cx.N cx.Z bj (Src.trStmts fuel [] { labels := AL.2 } (toSrcStmts r'.body) 0 bj).1 := by
       refine ⟨fun i hz => Nat.lt_of_lt_of_le (hZ i hz) hst.len, fun i h1 h2 => ?_⟩
       rw [hN]
@@ -172,7 +175,7 @@ theorem codegen_correct_cg (lv : Nat) (p : Program) (t : Tables) (hp : CgProg lv
       obtain ⟨j0, hj0, hget0⟩ := List.getElem_of_mem hr0
       have hj0' : p.routines[j0]? = some r0 := by rw [List.getElem?_eq_getElem hj0, hget0]
       obtain ⟨bj0, _, hfin0, hst0⟩ := paths j0 r0.body (by simp [hj0'])
-      obtain ⟨kn0, hk0⟩ := (trStmts_good cx fuel (toSrcStmts r0.body) _ henv 0 bj0).2 (fun i' hz' => Nat.lt_of_lt_of_le (hZ i' hz') hst0.len) n
+      obtain ⟨kn0, hk0⟩ := (trStmts_good' cx.Z fuel [] (toSrcStmts r0.body) _ henv.dense 0 bj0).2 (fun i' hz' => Nat.lt_of_lt_of_le (hZ i' hz') hst0.len) n
         (dfs_sub r0.body n hn0) i hlk
       obtain ⟨kn, hkn⟩ := hfin0.keeps_silent hk0
       have hne : (tbl (((p.routines.map (·.body)).map fun b => (⟨some (toSrcStmts b)⟩ : Src.Routine)).foldl
